@@ -533,9 +533,14 @@ def run_check(pid, tier):
     print(f"{pid} {tier}: {total_eval} cases, {total_nt} distinct non-trivial, {n_reg} regressions, "
           f"{n_viol} violations, {evidence['wall_s']}s")
     if status == 0 and problems:
+        soft = [p for p in problems if "essential class" in p]
+        hard = [p for p in problems if p not in soft]
         for p in problems:
-            print("HARNESS-PROBLEM:", p)
-        return 2
+            print("HARNESS-PROBLEM:" if (p in hard or tier == "thorough") else "GENERATOR-NOTE:", p)
+        # a class that is merely rare can have no member in one quick run at some seed: that is noted (and recorded in the
+        # evidence), not failed; in the thorough tier (>=100x the cases) an empty essential class is a generator regression
+        if hard or tier == "thorough":
+            return 2
     return status
 
 
